@@ -137,7 +137,10 @@ def restart_digests(prop, seed, runs, jobs, hashseed, force=None):
 def _restart_child():
     req = json.loads(sys.stdin.read())
     assert_repo_tree()
-    res = _digest_chunk(req["prop"], req["seed"], req["runs"], req["force"])
+    res = []
+    runs = req["runs"]
+    for i in range(0, len(runs), 4):  # the wall-clock backstop is per small group of runs
+        res.extend(_digest_chunk(req["prop"], req["seed"], runs[i:i + 4], req["force"]))
     sys.stdout.write(json.dumps(res))
 
 
